@@ -757,3 +757,21 @@ pub fn run() {
   run.assume("times of day in named zones depend on today's date and are only checked for acceptance and printing");
   run.finish();
 }
+
+/// replay of one recorded literal: every problem the literal shows on the four reading paths
+pub fn replay_case(case: &serde_json::Value) -> String {
+  let t = case.get("literal").and_then(|x| x.as_str()).unwrap_or("");
+  let kind = match case.get("kind").and_then(|x| x.as_str()).unwrap_or("") {
+    "date" => Kind::Date,
+    "time" => Kind::Time,
+    "date-time" => Kind::DateTime,
+    "days-and-time-duration" => Kind::Dtd,
+    _ => Kind::Ymd,
+  };
+  let (problems, _) = problems_of(kind, t);
+  if problems.is_empty() {
+    format!("PASS the {} literal `{}` is read, printed and read back as the reference grammar says", kind.name(), t)
+  } else {
+    format!("FAIL the {} literal `{}`: {}", kind.name(), t, problems.iter().map(|p| format!("{} via {}: {}", p.symptom, p.via, p.what)).collect::<Vec<_>>().join("; ").chars().take(600).collect::<String>())
+  }
+}
